@@ -19,7 +19,8 @@ import runner
 
 SEVS = ["debug", "command", "info", "warning", "error", "fatal"]
 FACS = ["core", "config", "va", "vb"]
-FILES = ["f1", "f2", "f3", "f4"]
+FILES = ["f1", "f2", "f3", "f4", "f5", "f6", "f7", "f8", "f9"]
+FEW = FILES[:4]
 CORE = 'core {\n library_path ( "/nonexistent" )\n modules ( )\n}\n'
 WALL0 = 1700000000 + 1000
 
@@ -91,7 +92,8 @@ def routing(ents):
 
 def gen_section(rnd):
     ents = []
-    for _ in range(rnd.randint(0, 6)):
+    big = rnd.random() < 0.06       # many entries, long destination lists over many files (vector growth)
+    for _ in range(rnd.randint(0, 6) if not big else rnd.choice([9, 13, 17])):
         fac = rnd.choice(FACS + ["*", "*", "CORE", "Va"])
         k = rnd.random()
         if k < 0.15:
@@ -102,7 +104,7 @@ def gen_section(rnd):
         else:
             sev = rnd.choice(["bogus", ">=", ",info", "info,,error", "*,info", "", "info,", ">>info", "=>info", "inf"])
         name = "%s.%s" % (fac, sev) if rnd.random() < 0.95 else fac
-        files = [rnd.choice(FILES) for _ in range(rnd.choice([1, 1, 2, 3]))]
+        files = [rnd.choice(FILES if big else FEW) for _ in range(rnd.choice([1, 1, 2, 3]) if not big else rnd.choice([1, 4, 5, 8, 9, 16, 17]))]
         ents.append([name, files if (len(files) > 1 or rnd.random() < 0.3) else files[0]])
     if rnd.random() < 0.2 and ents:
         ents.append(copy.deepcopy(rnd.choice(ents)))       # repeated key
@@ -158,9 +160,9 @@ class LogsProfile:
                         break
                     e = rnd.choice(ents)
                     if isinstance(e[1], list):
-                        e[1] = [rnd.choice(FILES) for _ in range(rnd.choice([1, 2, 3]))]
+                        e[1] = [rnd.choice(FEW) for _ in range(rnd.choice([1, 2, 3]))]
                     else:
-                        e[1] = rnd.choice([f for f in FILES if f != e[1]])
+                        e[1] = rnd.choice([f for f in FEW if f != e[1]])
                 steps.append({"kind": "reload", "ents": ents, "mode": rnd.choice(["plain", "plain", "burst"]), "inplace": True})
             else:
                 txt = render(gen_section(rnd))
